@@ -34,7 +34,8 @@ InPlaceOps == IF Kind = "AccSignal" THEN InPlaceSig \cup InPlaceAccOnly ELSE InP
 FuncSig == {"add_constant", "add_series", "add_signal", "butter_pass", "remove_average", "remove_poly", "reset_temp"}
 FuncAccOnly == {"correct_me", "remove_rolling_average_velocity"}
 FuncOps == IF Kind = "AccSignal" THEN FuncSig \cup FuncAccOnly ELSE FuncSig
-ReadOps == {"read_values", "read_derived"}
+\* (reset_rejected: reset_values with something that cannot become a record -- the call raises and must leave the object as it was)
+ReadOps == {"read_values", "read_derived", "reset_rejected"}
 
 OpName(o, k) == IF k = 0 THEN o ELSE o \o (IF k = 1 THEN "_1" ELSE "_2")
 
